@@ -3,7 +3,8 @@ C11 — Python ranges and python_version markers convert into each other exactly
 Property theorems only (helper lemmas in Proofs/PyConvText.lean, PyConvMarker.lean, PyConvSem.lean,
 PyConvRange.lean, PyConvNorm.lean, PyConvGpc.lean, PyConvPoetry.lean, PyConvLeaf.lean,
 PyConvSplit.lean, PyConvShape.lean, PyConvSplitSem.lean, PyConvSplitSound.lean, PyConvIn.lean,
-PyConvAlts.lean, PyConvGpcAlts.lean, PyConvLeafAlts.lean).
+PyConvAlts.lean, PyConvGpcAlts.lean, PyConvLeafAlts.lean, PyConvComma.lean, PyConvSplitE.lean,
+PyConvSplitSoundE.lean, PyConvNotIn.lean, PyConvDev*.lean, PyConvWild*.lean, PyConvPair*.lean, PyConvFull*.lean).
 
 Vocabulary.  `EnvPy E X Y Z`: the environment `E` has `python_version = "X.Y"` and
 `python_full_version = "X.Y.Z"` (all of `X Y Z : Nat`, unbounded); `pyV X Y Z` is the version `X.Y.Z`.
@@ -21,6 +22,7 @@ import PoetryVerif.Proofs.PyConvLeafAlts
 import PoetryVerif.Proofs.PyConvNotIn
 import PoetryVerif.Proofs.VRangeOps
 import PoetryVerif.Proofs.MarkerProj
+import PoetryVerif.Proofs.PyConvFull
 import PoetryVerif.Proofs.PyConvWildNe
 
 set_option linter.unusedSimpArgs false
@@ -275,6 +277,11 @@ clauses of one group do and rejects it when every group has a rejecting clause. 
 lemmas (`splitOr_groups`, `splitAnd_items`) and C05's `VC.intersect_reg` / `unionOfFlat_reg`. -/
 theorem split_sound (X Y Z : Nat) : SplitSound X Y Z := splitSound_holds X Y Z
 
+/-- **… with `not in` entries**: the same for groups of *entries* — an entry is one clause or the `, `-joined clauses
+a `not in` list contributes (`EntryShape`); the constraint parser splits a group at blanks and at `, ` alike
+(`splitAnd_cJoin`). -/
+theorem split_sound_entries (X Y Z : Nat) : SplitSoundE X Y Z := splitSoundE_holds X Y Z
+
 example : ItemShape "~3.8" ∧ ItemShape "!=3.8.*" := by
   obtain ⟨i1, h1, s1⟩ := normPair_shape "python_version" "==" [3, 8] (by simp [RelOp]) (.short 3 8)
   obtain ⟨i2, h2, s2⟩ := normPair_shape "python_version" "!=" [3, 8] (by simp [RelOp]) (.short 3 8)
@@ -424,5 +431,28 @@ theorem createNested_excluded_wildcard_partial (E : Env) (S : LeafSpec (leafEval
       ∀ txt m, createNestedMarker "python_version" c = .ok txt → parseMarker txt = .ok m →
         M.validate E m = .ok (c.allowsPlain (pyV X Y Z)) :=
   ⟨_, parseConstraint_neStar2 a b, fun txt m ht hm => (createNested_neWild E S X Y Z hE a b txt m ht hm).2⟩
+
+/-! ## against poetry's own `validate`, no leaf-level hypothesis
+
+On the domain where C07's leaf specification is proved outright — `FullLeaf E`: single markers on plain string
+variables and `extra` (C07's fragments), `python_version op "a.b"` and `python_full_version op "a.b.c"` with a
+comparison operator — under an environment of interpreter `X.Y.Z` with a set of active extras.  The python_version /
+python_full_version pairing of `_merge_single_markers` is proved sound (`pairSound_py`, Proofs/PyConvPairFinal.lean),
+so nothing about the simplifier is assumed. -/
+
+/-- **`get_python_constraint_from_marker` is an upper bound**: if the marker validates to true on the environment
+of `X.Y.Z`, its Python constraint admits `X.Y.Z`. -/
+theorem pyConstraint_upper_validate {E : Env} {ex : List String} (hX : E.extras = some ex) {X Y Z : Nat}
+    (hE : EnvPy E X Y Z) (m : M) (g : VC) (hg : M.Good (FullLeaf E) m) (h : gpc m = .ok g)
+    (hv : M.validate E m = .ok true) : g.allowsPlain (pyV X Y Z) = true :=
+  gpc_upper_validate_full hX hE m g hg h hv
+
+/-- **`get_python_constraint_from_marker` is exact on python-only markers**: `validate` on the environment of
+`X.Y.Z` returns exactly whether the constraint admits `X.Y.Z`. -/
+theorem pyConstraint_exact_validate {E : Env} {ex : List String} (hX : E.extras = some ex) {X Y Z : Nat}
+    (hE : EnvPy E X Y Z) (m : M) (g : VC) (hg : M.Good (FullLeaf E) m)
+    (hvars : ∀ n ∈ M.vars m, pyNames.contains n = true) (h : gpc m = .ok g) :
+    M.validate E m = .ok (g.allowsPlain (pyV X Y Z)) :=
+  gpc_exact_validate_full hX hE m g hg hvars h
 
 end Poetry.C11
